@@ -180,8 +180,9 @@ AfterHandlerClear == {"ctx.hijackHandler"}                                      
 ReadTouch  == Fam("req.h") \cup Fam("req.uri") \cup Fam("req.body") \cup Fam("req.mp") \cup Fam("req.post")
               \cup P("ctx.", {"params", "handlers", "index", "fullPath"}) \cup {"trace.events", "trace.recvSize", "resp.h.server"}
 WriteTouch == Fam("resp.h") \cup Fam("resp.body") \cup {"resp.skipBody", "trace.events", "trace.sendSize", "trace.error"}
-(* the probe handler's dump calls lazy getters and writes a small response *)
-ProbeTouch == ReadTouch \cup WriteTouch \cup {"ctx.finished", "req.options"}
+(* the probe handler's dump calls lazy getters, its setter program (harness/drivers/c09/reuse.go) writes request, response
+   and keys, and it writes a small response: anything that is not connection scoped *)
+ProbeTouch == CtxObs \ Kept
 AbortTouch == Touch("Ctx.Abort")
 PanicTouch == Touch("Ctx.AbortWithStatus") \cup {"trace.panicked", "trace.error"}   \* recovery middleware: AbortWithStatus(500)
 
